@@ -14,6 +14,42 @@ FIND_INDEX = {
 }
 
 BLOCKS = {
+    "_process_segments_block": {
+        # space._process_segments (every function space is built on its result): which elements form the support and which normals are swapped.
+        # Program slice: everything but the ValueError for "both support_elements and segments given" (-> requires) and `if swapped_normals is None:
+        # swapped_normals = {}` (-> the contract is stated for a given collection; None means the empty one).  `segments` / `swapped_normals` are abstracted to
+        # the SET of their entries: order and multiplicity of the user-supplied list must not matter.
+        "function": ("bempp_cl.api.space.space", "_process_segments"),
+        "slice_targets": ["number_of_elements", "normal_multipliers", "support"],
+        "records": ["grid"],
+        "loop": None,
+        "params": ["grid_domain_indices", "grid_number_of_elements", "support_elements", "segments", "swapped_normals"],
+        "returns": ["support", "normal_multipliers"],
+        "contract": {
+            "args": {"grid_domain_indices": ("arr1",), "grid_number_of_elements": ("int",), "support_elements": ("opt", ("arr1",)), "segments": ("opt", ("intlist",)),
+                     "swapped_normals": ("intlist",)},
+            "requires": ["len(grid_domain_indices) == grid_number_of_elements",
+                         "(support_elements is None) or (segments is None)",
+                         "(support_elements is None) or forall(0, len(support_elements), lambda i: 0 <= support_elements[i] and support_elements[i] < grid_number_of_elements)"],
+            "loops": {
+                1: {"invariant": ["len(normal_multipliers) == grid_number_of_elements",
+                                  "forall(0, _k, lambda e: (normal_multipliers[e] == -1) == (grid_domain_indices[e] in swapped_normals))",
+                                  "forall(0, _k, lambda e: normal_multipliers[e] == -1 or normal_multipliers[e] == 1)"]},
+                2: {"invariant": ["len(support) == grid_number_of_elements",
+                                  "forall(0, _k, lambda e: (support[e] != 0) == (grid_domain_indices[e] in segments))",
+                                  "forall(_k, grid_number_of_elements, lambda e: support[e] == 0)"]},
+            },
+            "result": ("tuple", 2),
+            "ensures": [
+                "len(result_0) == grid_number_of_elements and len(result_1) == grid_number_of_elements",
+                "forall(0, grid_number_of_elements, lambda e: (result_1[e] == -1) == (grid_domain_indices[e] in swapped_normals))",
+                "forall(0, grid_number_of_elements, lambda e: result_1[e] == -1 or result_1[e] == 1)",
+                "(segments is None) or forall(0, grid_number_of_elements, lambda e: (result_0[e] != 0) == (grid_domain_indices[e] in segments))",
+                "(support_elements is None) or forall(0, grid_number_of_elements, lambda e: (result_0[e] != 0) == exists(0, len(support_elements), lambda i: support_elements[i] == e))",
+                "(segments is not None) or (support_elements is not None) or forall(0, grid_number_of_elements, lambda e: result_0[e] != 0)",
+            ],
+        },
+    },
     "_boundary_vertices": {
         # Grid._compute_boundary_information, vertex part (program slice: the flag array and the loop over the boundary edges): a vertex is flagged exactly if it is an
         # end point of an edge flagged as boundary edge.  (That the edge flags mark the edges with one adjacent element comes from a scipy product and stays under the
